@@ -99,6 +99,9 @@ type Cmd struct {
 	finished bool
 	outBuf   *bytes.Buffer
 	errBuf   *bytes.Buffer
+	outPipe  *outPipe
+	errPipe  *outPipe
+	res      *kern.Rep // what the finished process left behind, once collected
 }
 
 // Command returns the Cmd struct to execute the named program with the given arguments.
@@ -271,15 +274,26 @@ func (c *Cmd) Wait() error {
 	if c.finished {
 		return errors.New("exec: Wait was already called")
 	}
-	r := kern.Call(kern.Req{Op: kern.OpProcWait, A: int64(c.pid)})
+	r := c.collect()
 	c.finished = true
 	if r.Status != 0 {
 		return errors.New("exec: Wait was already called")
 	}
-	if c.Stdout != nil {
+	for _, p := range []*outPipe{c.outPipe, c.errPipe} {
+		if p == nil {
+			continue
+		}
+		if !p.closed && len(p.data(r))-p.off > pipeBuf {
+			// the process cannot have exited: it is blocked writing into a full pipe that nobody reads
+			kern.Call(kern.Req{Op: kern.OpBlockForever, S: "wait for a process that is blocked writing to its full output pipe (nobody reads it)"})
+		}
+		// like os/exec, Wait closes the read ends: what was not read before is lost
+		p.closed = true
+	}
+	if c.Stdout != nil && c.outPipe == nil {
 		c.Stdout.Write(r.Data)
 	}
-	if c.Stderr != nil {
+	if c.Stderr != nil && c.errPipe == nil {
 		io.WriteString(c.Stderr, r.S)
 	}
 	if r.B == 1 {
@@ -336,11 +350,81 @@ func (c *Cmd) CombinedOutput() ([]byte, error) {
 	return b.Bytes(), err
 }
 
-// StdoutPipe and StderrPipe are not modelled.
-func (c *Cmd) StdoutPipe() (io.ReadCloser, error) {
-	return nil, errors.New("simexec: StdoutPipe is not modelled")
+// collect waits (once) for the simulated process to end and keeps what it left behind.
+func (c *Cmd) collect() kern.Rep {
+	if c.res == nil {
+		r := kern.Call(kern.Req{Op: kern.OpProcWait, A: int64(c.pid)})
+		c.res = &r
+	}
+	return *c.res
 }
+
+// outPipe is the read end of a pipe connected to the standard output (or standard error) of the
+// command. The model is coarse in time and exact in what matters to callers: a Read blocks until the
+// process has ended and then delivers its output piece by piece; a process that wrote more than the
+// pipe holds cannot end before somebody reads it (Wait blocks for ever in that case - the kernel
+// reports the deadlock); Wait closes the read end, and what was not read by then is lost.
+type outPipe struct {
+	c      *Cmd
+	stderr bool
+	off    int
+	closed bool
+}
+
+func (p *outPipe) data(r kern.Rep) []byte {
+	if p.stderr {
+		return []byte(r.S)
+	}
+	return r.Data
+}
+
+func (p *outPipe) Read(b []byte) (int, error) {
+	if p.closed {
+		return 0, fs.ErrClosed
+	}
+	if !p.c.started {
+		kern.Call(kern.Req{Op: kern.OpBlockForever, S: "read from the output pipe of a process that is not started"})
+	}
+	d := p.data(p.c.collect())
+	if p.off >= len(d) {
+		return 0, io.EOF
+	}
+	n := copy(b, d[p.off:])
+	if n > pipeBuf {
+		n = pipeBuf
+	}
+	p.off += n
+	return n, nil
+}
+
+func (p *outPipe) Close() error {
+	p.closed = true
+	return nil
+}
+
+// StdoutPipe returns a pipe that will be connected to the command's standard output.
+func (c *Cmd) StdoutPipe() (io.ReadCloser, error) {
+	if c.Stdout != nil {
+		return nil, errors.New("exec: Stdout already set")
+	}
+	if c.started {
+		return nil, errors.New("exec: StdoutPipe after process started")
+	}
+	c.outPipe = &outPipe{c: c}
+	c.Stdout = io.Discard
+	return c.outPipe, nil
+}
+
+// StderrPipe returns a pipe that will be connected to the command's standard error.
 func (c *Cmd) StderrPipe() (io.ReadCloser, error) {
-	return nil, errors.New("simexec: StderrPipe is not modelled")
+	if c.Stderr != nil {
+		return nil, errors.New("exec: Stderr already set")
+	}
+	if c.started {
+		return nil, errors.New("exec: StderrPipe after process started")
+	}
+	c.errPipe = &outPipe{c: c, stderr: true}
+	c.Stderr = io.Discard
+	return c.errPipe, nil
 }
 func (c *Cmd) Environ() []string { return c.Env }
